@@ -1,6 +1,7 @@
 package main
 
 import (
+	"strconv"
 	"fmt"
 	"go/constant"
 	"go/token"
@@ -314,6 +315,18 @@ func ruleC03Prune(c *Checker) {
 			okE, _ := okEdgesOfCall(cl)
 			emptyGone = append(emptyGone, okE...)
 		}
+		// a directory that a dominating rule excludes is not read at all: the Pack walk prunes it
+		if len(domT) > 0 && len(bundleWalkSet(p)[fn]) == 0 {
+			pruned := false
+			for _, r := range returnsOf(fn) {
+				for _, v := range returnValues(r, 0) {
+					if v != nil && isSkipDirValue(v) && guarded(r.Block(), domT) {
+						pruned = true
+					}
+				}
+			}
+			c.check(pruned, R, name, "excluded subtree not entered", p.Pos(fn.Pos()), "filepath.SkipDir returned on the Dominating edge", "a directory excluded with everything below it is still walked: a subtree nobody wanted (.git, .terraform) that cannot be read — permissions, a path too long — makes Pack fail although none of it would be shipped")
+		}
 		for _, r := range returnsOf(fn) {
 			for _, v := range returnValues(r, 0) {
 				if v != nil && isSkipDirValue(v) {
@@ -416,6 +429,25 @@ func ruleC03Meta(c *Checker) {
 		raw = append(raw, bo)
 	})
 	c.check(len(raw) > 0, R, name, "raw append site", p.Pos(comp.Pos()), fmt.Sprintf("%d raw append site(s)", len(raw)), "no 'append rune verbatim' site found (ordinary characters could not be matched)")
+	// escape sites: constant + string(rune) — the constant is the one backslash that makes the rune literal
+	nEsc := 0
+	eachInstr(comp, func(in ssa.Instruction) {
+		bo, ok := in.(*ssa.BinOp)
+		if !ok || bo.Op != token.ADD {
+			return
+		}
+		cv, ok := bo.Y.(*ssa.Convert)
+		if !ok || !isNext(cv.X) {
+			return
+		}
+		k, isC := constString(bo.X)
+		if !isC {
+			return
+		}
+		nEsc++
+		c.check(k == "\\", R, name, fmt.Sprintf("escape prefix %d", nEsc), p.Pos(bo.Pos()), "a single backslash in front of the rune", "the rune is preceded by "+strconv.Quote(k)+" instead of a backslash: a '.' in a rule matches any character (foo.txt excludes fooXtxt, the built-in .git/ rule excludes xgit/)")
+	})
+	c.check(nEsc > 0, R, name, "escape site", p.Pos(comp.Pos()), fmt.Sprintf("%d escape site(s)", nEsc), "no site puts a backslash in front of a rune: the regexp operators cannot be made literal")
 	must := "+()|{}.$*?\\"
 	mayRaw := "[]^a/-_ 0"
 	for _, r := range must + mayRaw {
@@ -1355,4 +1387,13 @@ func ruleC03MatchErr(c *Checker) {
 		}
 	}
 	_ = n
+}
+
+// bundleWalkSet: the bundle preparation walk callbacks, as a set (they remove instead of pruning).
+func bundleWalkSet(p *Prog) map[*ssa.Function][]int {
+	out := map[*ssa.Function][]int{}
+	for _, f := range bundleWalks(p) {
+		out[f] = []int{1}
+	}
+	return out
 }
